@@ -151,13 +151,9 @@ fn params_case<const N: usize>(allow_long: bool) {
         }
         Err(_) => assert!(any_long, "C14: a parameter list with unknown entries was rejected"),
     }
-    if N >= 2 {
-        kani::cover!(w == 2 && n == N && !any_long);
-    }
+    kani::cover!(N < 2 || (w == 2 && n == N && !any_long));
     kani::cover!(w == 0 && n == N && !any_long);
-    if allow_long {
-        kani::cover!(any_long);
-    }
+    kani::cover!(!allow_long || any_long);
 }
 
 #[kani::proof]
